@@ -149,7 +149,7 @@ def prog_with_layout(pid, evals, cfg=None, modes=None, rnd=None):
 
 def prog_record(pid, evals, cfg=None, modes=None):
     ids = Ids()
-    c = {"tro": True, "budget": 0, "cancel": 0, "noctx": 0, "maxphys": 25000, "maxtail": 1000000, "maxnest": 100000, "maxmacro": 1000}
+    c = {"tro": True, "budget": 0, "cancel": 0, "noctx": 0, "ctxfirst": 0, "maxphys": 25000, "maxtail": 1000000, "maxnest": 100000, "maxmacro": 1000}
     c.update(cfg or {})
     return {"id": pid, "cfg": c, "evals": [[to_ast(f, ids) for f in forms] for forms in evals],
             "modes": list(modes) if modes else ["load"] * len(evals)}
@@ -166,6 +166,8 @@ def driver_cfg(cfg):
         d["cancel_at"] = c["cancel"]
     if c.get("noctx"):
         d["noctx_first"] = c["noctx"]
+    if c.get("ctxfirst"):
+        d["ctx_first"] = c["ctxfirst"]
     for k in ("maxphys", "maxtail", "maxnest", "maxmacro"):
         if k in c:
             d[k] = c[k]
